@@ -76,7 +76,7 @@ func c19Activity(p *core.Prog, r *core.Report) {
 	wf := p.Func("", "Connection", "writeFrames")
 	for _, side := range []struct {
 		field, upd string
-		loop     *ssa.Function
+		loop       *ssa.Function
 	}{{"lastActivityRead", "updateLastActivityRead", rf}, {"lastActivityWrite", "updateLastActivityWrite", wf}} {
 		fld := mustField(p, r, "", "Connection", side.field)
 		upd := mustFunc(p, r, "", "Connection", side.upd)
